@@ -257,9 +257,12 @@ def run_advice(case, ctx, sp, d):
     for which in ("in-range", "out-of-range"):
         inner = xk.Doc(d.standalone(main))
         inner = inner.set_attr(inner.root, "ID", "id-advice-assertion")
+        n = inner.find(xk.SAML, "Conditions")[0]
         if which == "out-of-range":
-            n = inner.find(xk.SAML, "Conditions")[0]
             inner = inner.set_attr(n, "NotOnOrAfter" if bound == "cond-nooa" else "NotBefore", clock.iso(T0 - W - off) if bound == "cond-nooa" else clock.iso(T0 + W + off))
+        else:
+            # satisfied, but another instant than that of the assertion around it (whose bounds are the ones that matter for the session)
+            inner = inner.set_attr(n, "NotOnOrAfter", clock.iso(T0 + W + 10 ** 8 + 2 * W + 43210))
         txt = inner.text()
         if txt.startswith("<?xml"):
             txt = txt[txt.index("?>") + 2:]
@@ -270,10 +273,42 @@ def run_advice(case, ctx, sp, d):
         docs[which] = d.insert_after(d.find(xk.SAML, "Conditions")[0], "<%s:Advice>%s</%s:Advice>" % (p, txt, p)).text()
     r0, e0 = fed.deliver(sp, docs["in-range"], dict(OUT))
     shape_ok = r0 is not None and "Mallory" in repr(getattr(r0, "ava", None))
+    viol = []
+    if r0 is not None:
+        # no SessionNotOnOrAfter wins over it here? run_multi set one (far + 777): that is what the application must be handed, whatever the
+        # advice assertion carries
+        want_exp = T0 + W + (10 ** 8 + 2 * W) + 777
+        try:
+            got_exp = r0.session_info()["not_on_or_after"]
+        except Exception as exc0:
+            got_exp = "ERR %r" % (exc0,)
+        if got_exp != want_exp:
+            viol.append({"key": "C04/session-expiry-handed-to-application-wrong",
+                         "what": "assertion with a (%s) advice assertion whose own Conditions end at another instant: session_info not_on_or_after=%r, "
+                                 "SessionNotOnOrAfter of the assertion is %r" % (case["other"], got_exp, want_exp), "detail": {"document": docs["in-range"][:8000]}})
+    # ... and without a SessionNotOnOrAfter: then it is the NotOnOrAfter of the assertion's own Conditions
+    d3 = xk.Doc(docs["in-range"])
+    for _ in range(len(d3.find(xk.SAML, "AuthnStatement"))):
+        # (the assertion's own statement and, where the advice is in clear, the copy inside it)
+        left = [n for n in d3.find(xk.SAML, "AuthnStatement") if "SessionNotOnOrAfter" in n.attrs]
+        if not left:
+            break
+        d3 = d3.set_attr(left[0], "SessionNotOnOrAfter", None)
+    r3, e3 = fed.deliver(sp, d3.text(), dict(OUT))
+    if r3 is not None:
+        want_exp = T0 + W + (10 ** 8 + 2 * W)
+        try:
+            got_exp = r3.session_info()["not_on_or_after"]
+        except Exception as exc0:
+            got_exp = "ERR %r" % (exc0,)
+        if got_exp != want_exp:
+            viol.append({"key": "C04/session-expiry-handed-to-application-wrong",
+                         "what": "assertion (no SessionNotOnOrAfter) with a (%s) advice assertion whose own Conditions end at another instant: session_info "
+                                 "not_on_or_after=%r, NotOnOrAfter of the assertion's Conditions is %r" % (case["other"], got_exp, want_exp),
+                         "detail": {"document": d3.text()[:8000]}})
     resp, exc = fed.deliver(sp, docs["out-of-range"], dict(OUT))
     accepted = resp is not None
     clock.set_now(None)
-    viol = []
     if accepted and "Mallory" in repr(getattr(resp, "ava", None)):
         viol.append({"key": "C04/accepted-outside-validity-window:advice-assertion",
                      "what": "the %s advice assertion carries %s %d s beyond the edge (allowance %d) and contributed %r to the accepted identity" % (
